@@ -51,6 +51,8 @@ class G(object):
         r = self.rng.random()
         if depth >= 2 or r < (0.45 if inner else 0.0):
             return self.ident()
+        if inner and r < 0.52 and depth < 2:
+            return "%s @ %s" % (self.name(), self.pat(depth + 1))
         k = self.rng.choice(["tuple", "tuple", "tstruct", "struct", "slice"])
         if k == "tuple":
             es = self.elems(depth)
@@ -79,6 +81,9 @@ UNSUPPORTED = ["_", "(%s, _)", "&%s", "(%s, &%s)", "[%s, _, ..]", "T(_)", "(%s |
 def gen_param(g, rng, tys, shape=None):
     """-> (pattern text, type text, kind)"""
     r = rng.random()
+    if shape is None and r < 0.07:
+        # `name @ pattern` at the top of a parameter: one binder for the whole value (the subpattern is not looked at by the macro)
+        return "%s @ %s" % (g.name(), g.pat(0)), rng.choice(["(u8, u8)", "P", "T", "[u8; 3]", "m::Rec"]), "ident"
     if shape == "ident" or (shape is None and r < 0.55):
         return g.ident(), rng.choice(tys), "ident"
     if shape == "unsupported":
